@@ -12,3 +12,10 @@ func VerifC14Subscribers() int {
 	manager.subscribers.Range(func(_, _ interface{}) bool { n++; return true })
 	return n
 }
+
+// VerifC14Keys returns the current keys of manager.subscribers.
+func VerifC14Keys() []*ControlChans {
+	var ks []*ControlChans
+	manager.subscribers.Range(func(k, _ interface{}) bool { ks = append(ks, k.(*ControlChans)); return true })
+	return ks
+}
